@@ -29,7 +29,7 @@ fn info(tier: Tier) -> CheckInfo {
         id: "C09",
         level: "model_checking",
         rule: format!(
-            "Tier {}: one real client node runs get_peers then put_immutable over 3 scripted endpoints (two hold peers) plus a silent fourth one known only to one of them. Deviation-bounded DFS (bound {}): at every network event of the operation window an adversary may inject one message - kind in {{bare response, response with token+nodes+ip vote, response carrying a valid value, error 203, error 301}} x transaction id in 0..=N+1 (all ids the node uses in the run, tids are sequential) x source in {{other IP same port, right IP other port, another endpoint's address}}; and every genuine reply may be duplicated, delayed past the request timeout, delivered twice after the timeout (both compared with the run where it is lost), or delivered once in time and once after the timeout. Oracle: results of both calls, routing tables, cached closest nodes, address votes (public_address, firewalled) and what the endpoints stored must equal the run without the deviation. States = distinct world digests (all node snapshots + datagram pool); every execution runs the real node.",
+            "Tier {}: one real client node runs get_peers then put_immutable over 3 scripted endpoints (two hold peers) plus a silent fourth one known only to one of them. Deviation-bounded DFS (bound {}): at every network event of the operation window an adversary may inject one message - kind in {{bare response, response with token+nodes+ip vote, response carrying a valid value, error 203, error 301}} x transaction id in 0..=N+1 (all ids the node uses in the run, tids are sequential) x source in {{other IP same port, right IP other port, another endpoint's address}}; and every genuine reply may be duplicated, delayed past the request timeout, delivered twice after the timeout (both compared with the run where it is lost), or delivered once in time and once after the timeout. Oracle: results of both calls, routing tables, cached closest nodes, address votes (public_address, firewalled) and what the endpoints stored must equal the run without the deviation. Pairs of reply fates {{duplicate, late, lost, two late copies, in-time + late copy, 450 ms slow}}: every additional copy must be as good as absent. Long-running node: the undisturbed scenario with the node's transaction-id counter started (before its first request) at every position around 2^16 and around the 32-bit wrap-around must give the fresh node's outcome. States = distinct world digests (all node snapshots + datagram pool); every execution runs the real node.",
             tier.name(),
             if tier.is_quick() { 1 } else { 2 }
         ),
@@ -45,6 +45,11 @@ struct Inj {
     kind: u8,
     tid: u32,
     src: u8,
+}
+
+thread_local! {
+    /// Where the node's transaction-id counter stands when the scenario's calls begin.
+    static START_TID: std::cell::Cell<Option<u32>> = const { std::cell::Cell::new(None) };
 }
 
 #[derive(Clone, Debug, PartialEq, Eq)]
@@ -180,6 +185,11 @@ fn scenario(chooser: Chooser, menu: &[Inj], reply_faults: bool, track: bool) -> 
     let eps = net.addrs();
     let a = w.add_node(NodeCfg::new([9, 9, 9, 9], 7000).bootstrap(&eps[..1]).id([0x21; 20]));
     let a_addr = w.node_addr(a);
+    // a node that has been running for a long time: its transaction-id counter is far from 0
+    // (set before its first request, so that no request of an earlier epoch is outstanding)
+    if let Some(t) = START_TID.with(|c| c.get()) {
+        w.set_next_tid(a, t);
+    }
 
     // bootstrap phase (no deviations)
     let h = w.now + 3 * SEC;
@@ -434,6 +444,34 @@ fn run(tier: Tier, shard: usize, nshards: usize, _seed: u64) -> Partial {
         });
     }
 
+    // --- part 3: the same scenario on a node that has been running for a long time. Every
+    // position of the 16-bit boundary and of the 32-bit wrap-around of the transaction-id
+    // counter inside the scenario's requests; the outcome must equal the fresh node's.
+    if shard == 0 {
+        let span = base.n_tids as u32 + 16; // the bootstrap phase uses a few ids too
+        let mut starts: Vec<u32> = vec![1 << 16, 1 << 24, 1 << 31];
+        for k in 0..=span {
+            starts.push((1u32 << 16) - k);
+            starts.push(u32::MAX - k);
+        }
+        for t in starts {
+            START_TID.with(|c| c.set(Some(t)));
+            let (_, r) = scenario(Chooser::default_run(), &[], false, false);
+            START_TID.with(|c| c.set(None));
+            out.add("executions", 1);
+            out.add("long_running_starts", 1);
+            out.add("transitions", r.steps);
+            if r.obs != base.obs {
+                let class = if t > u32::MAX - span - 1 { "32-bit-wrap" } else if t <= (1 << 16) && t + span >= (1 << 16) { "16-bit-boundary" } else { "large-tid" };
+                out.violation(
+                    format!("long-running-node/{}/{class}", base.obs.class(&r.obs)),
+                    format!("same lookup and put on a node whose transaction-id counter starts at {t} (instead of 0): {}", base.obs.diff(&r.obs)),
+                    json!({"part": "long-running", "start_tid": t}),
+                );
+            }
+        }
+    }
+
     // --- part 2: duplicates and late replies of genuine answers
     let mut ex2 = Explorer::new(2, (shard, nshards));
     ex2.explore(&mut |chooser, count| {
@@ -529,6 +567,17 @@ impl TierExt for Tier {
 }
 
 fn replay(v: &Value) -> Result<Option<Violation>, String> {
+    if v.get("part").and_then(|p| p.as_str()) == Some("long-running") {
+        let t = v.get("start_tid").and_then(|x| x.as_u64()).ok_or("start_tid")? as u32;
+        let (_, base) = scenario(Chooser::default_run(), &[], false, false);
+        START_TID.with(|c| c.set(Some(t)));
+        let (_, r) = scenario(Chooser::default_run(), &[], false, false);
+        START_TID.with(|c| c.set(None));
+        if r.obs != base.obs {
+            return Ok(Some(Violation { key: format!("long-running-node/{}", base.obs.class(&r.obs)), desc: format!("transaction-id counter starting at {t}: {}", base.obs.diff(&r.obs)), replay: v.clone() }));
+        }
+        return Ok(None);
+    }
     let choices: Vec<u32> = v.get("choices").and_then(|c| c.as_array()).ok_or("choices")?.iter().filter_map(|x| x.as_u64().map(|x| x as u32)).collect();
     let part = v.get("part").and_then(|p| p.as_str()).unwrap_or("inject");
     let tier = Tier::parse(v.get("tier").and_then(|t| t.as_str()).unwrap_or("quick")).unwrap_or(Tier::Quick);
